@@ -147,14 +147,18 @@ fn performance() {
         let r = run(&load(&small).expect("load"), &opts);
         assert_eq!(r.outcome, Outcome::Ok);
         assert_eq!(r.prints, vec!["1".to_string()]);
-        let n = 300;
-        let t0 = std::time::Instant::now();
-        for _ in 0..n {
-            let c = load(&small).expect("load");
-            let r = run(&c, &opts);
-            assert!(matches!(r.outcome, Outcome::Ok));
+        let n = 200;
+        let mut per = f64::MAX;
+        for _batch in 0..4 {
+            // best of several batches: other tests run in parallel and add noise
+            let t0 = std::time::Instant::now();
+            for _ in 0..n {
+                let c = load(&small).expect("load");
+                let r = run(&c, &opts);
+                assert!(matches!(r.outcome, Outcome::Ok));
+            }
+            per = per.min(t0.elapsed().as_secs_f64() * 1e3 / n as f64);
         }
-        let per = t0.elapsed().as_secs_f64() * 1e3 / n as f64;
         let c = load(&small).expect("load");
         let t1 = std::time::Instant::now();
         for _ in 0..n {
